@@ -44,7 +44,8 @@ GEN = {
         dict(name="perm3", Names=["a"], MaxN=3, MaxOps=3, Mode="perm"),
     ],
     "thorough": [
-        dict(name="edit3", Names=["a", "b"], MaxN=3, MaxOps=3, Mode="edit"),
+        dict(name="edit2", Names=["a", "b"], MaxN=2, MaxOps=2, Mode="edit"),
+        dict(name="edit3", Names=["a"], MaxN=3, MaxOps=3, Mode="edit"),
         dict(name="perm3", Names=["a", "b"], MaxN=3, MaxOps=3, Mode="perm"),
         dict(name="perm4", Names=["a"], MaxN=4, MaxOps=4, Mode="perm"),
     ],
